@@ -241,6 +241,7 @@ pub struct World {
     pub genuine: Vec<Genuine>,
     pub life: usize,
     pub http_n: usize,
+    pub last_timing: Option<CheckTiming>,
 }
 
 impl World {
@@ -265,6 +266,7 @@ impl World {
             genuine: vec![],
             life: 0,
             http_n: 0,
+            last_timing: None,
         }
     }
     pub fn now(&self) -> ComplexTime {
@@ -323,11 +325,12 @@ pub fn open_gate(w: &W, id: usize) {
         match label {
             GateLabel::TimerUntil(t) => g.log.push(Op::TimerFired { id: t }),
             GateLabel::TimerFor(t, d) => {
-                g.log.push(Op::TimerFired { id: t });
+                // the clock moves first: the log entry carries the time at which the timer fired
                 let adv = timer_advance(d);
                 g.mono_ns += adv;
                 g.wall_ns += adv;
                 g.log.now = (g.wall_ns, g.mono_ns);
+                g.log.push(Op::TimerFired { id: t });
             }
             _ => {}
         }
@@ -363,10 +366,11 @@ impl Future for GateFut {
                 match label {
                     GateLabel::TimerUntil(t) => g.log.push(Op::TimerFired { id: t }),
                     GateLabel::TimerFor(t, d) => {
-                        g.log.push(Op::TimerFired { id: t });
                         let adv = timer_advance(d);
                         g.mono_ns += adv;
                         g.wall_ns += adv;
+                        g.log.now = (g.wall_ns, g.mono_ns);
+                        g.log.push(Op::TimerFired { id: t });
                     }
                     _ => {}
                 }
@@ -447,10 +451,19 @@ impl PolicyEngine for SimPolicy {
             1 => PartialComplexTime::Monotonic(now.mono + d),
             _ => PartialComplexTime::Complex(ComplexTime { wall: now.wall + d, mono: now.mono + d }),
         };
-        let timing = match spec.min_wait_ms {
+        let mut timing = match spec.min_wait_ms {
             Some(m) => CheckTiming::builder().time(time).minimum_wait(Duration::from_millis(m)).build(),
             None => CheckTiming::builder().time(time).build(),
         };
+        // a policy that derives the next check time from persisted state returns the very same timing again
+        // (e.g. after a throttled request)
+        if spec.kind == 3 {
+            if let Some(prev) = g.last_timing {
+                timing = prev;
+            }
+        }
+        g.last_timing = Some(timing);
+        let time = timing.time;
         let answer = TimingView { time: time_view(time), min_wait: timing.minimum_wait };
         g.log.push(Op::NextTime { apps: apps.iter().map(app_view).collect(), sched: sched_view(scheduling), state: proto_view(protocol_state), answer });
         future::ready(timing).boxed()
@@ -761,19 +774,29 @@ impl Installer for SimInstaller {
                 g.log.push(Op::Install { plan_id: install_plan.id.clone() });
                 spec
             };
-            for (i, v) in spec.progress.iter().enumerate() {
+            // progress is reported in batches: batch size 1 = sequential reports; larger batches = several
+            // receive_progress calls in flight at once (parallel package downloads sharing the observer)
+            let batch = spec.concurrent.max(1) as usize;
+            let mut i = 0;
+            while i < spec.progress.len() {
+                let vals: Vec<(usize, f32)> = spec.progress[i..(i + batch).min(spec.progress.len())].iter().enumerate().map(|(k, v)| (i + k, *v)).collect();
                 gate(&w, GateLabel::Progress(i)).await;
                 {
                     if lock(&w).interact(true) {
                         future::pending::<()>().await;
                     }
                     let mut g = lock(&w);
-                    g.log.push(Op::Progress { i, value: *v });
+                    for (k, v) in &vals {
+                        g.log.push(Op::Progress { i: *k, value: *v, batch: vals.len() });
+                    }
                 }
                 if let Some(o) = observer {
-                    o.receive_progress(None, *v, None, None).await;
+                    future::join_all(vals.iter().map(|(_, v)| o.receive_progress(None, *v, None, None))).await;
                 }
-                lock(&w).log.push(Op::ProgressDone { i });
+                for (k, _) in &vals {
+                    lock(&w).log.push(Op::ProgressDone { i: *k });
+                }
+                i += vals.len();
             }
             gate(&w, GateLabel::Install).await;
             // contract: one result per offered app, in response order
